@@ -134,6 +134,7 @@ class C11:
         for shape in SHAPES:
             for n in ((1, 2) if tier == "quick" else (1, 2, 3)):
                 units.append({"shape": shape, "n": n})
+        units.append({"reuse": True})
         return units
 
     def run(self, env: Any, program: Any) -> None:
@@ -144,6 +145,10 @@ class C11:
             env.fail("harness", f"{outcome}: {env.data.get('escaped_tb', '')}")
 
     def work(self, unit: dict, tier: str) -> dict:
+        if unit.get("reuse"):
+            from ..reuse import summary_for
+
+            return summary_for("signal", "C11")
         from ..explore import Chooser, reset_determinism
         from ..vloop import Env
 
@@ -166,6 +171,7 @@ class C11:
         s["nontrivial"] = res["nontrivial"]
         s["outcomes"] = {"done": res["cases"]}
         s["samples"] = res["samples"][:1]
+        s["extra"] = {"id_reuse_not_achieved": res.get("not_covered", 0)}
         kh: dict[str, int] = {}
         for v in res["violations"]:
             kh[v["keys"][0]] = kh.get(v["keys"][0], 0) + 1
@@ -212,6 +218,7 @@ class C11:
                 elif fails:
                     res["violations"].append({"keys": sorted({f[0] for f in fails}), "fails": [], "program": {}, "choices": [], "trace": [], "outcome": "done"})
         await self.liveness(env, unit, res)
+        await self.reuse_and_copy(env, unit, res)
 
     async def case(self, env: Any, unit: dict, order: tuple, subs: tuple, res: dict) -> list:
         from asphalt.core import Event, Signal, UnboundSignal
@@ -347,8 +354,93 @@ class C11:
                     res["violations"].append({"keys": ["leak"], "fails": [list(f) for f in fails], "program": {"shape": unit["shape"], "liveness": mode},
                                               "choices": [], "trace": [], "outcome": "done"})
 
+    async def reuse_and_copy(self, env: Any, unit: dict, res: dict) -> None:
+        """(a) a subscriber outlives its owner, the owner is collected and a new instance is allocated at the same address:
+        the new instance's channel must be a fresh one; (b) an instance is copied after its signal has been accessed."""
+        import copy as _copy
+
+        classes, sigmap = build_shape(unit["shape"])
+        for cls in classes:
+            attr = list(sigmap[cls])[0]
+            evcls = sigmap[cls][attr]
+            for scenario in ("id-reuse", "copy"):
+                fails: list = []
+                got: list = []
+
+                async def consumer(stream: Any) -> None:
+                    async for ev in stream:
+                        got.append(ev)
+
+                old = cls()
+                sig = getattr(old, attr)
+                async with sig.stream_events() as stream:
+                    async with anyio.create_task_group() as tg:
+                        tg.start_soon(consumer, stream)
+                        await anyio.lowlevel.checkpoint()
+                        if scenario == "id-reuse":
+                            oid = id(old)
+                            old_sig_id = id(sig)
+                            del old, sig
+                            gc.collect()
+                            keep = []
+                            new = None
+                            for _ in range(300):
+                                cand = cls()
+                                if id(cand) == oid:
+                                    new = cand
+                                    break
+                                keep.append(cand)
+                            del keep
+                            if new is None:
+                                res["not_covered"] = res.get("not_covered", 0) + 1
+                            else:
+                                ev = evcls()
+                                nsig = getattr(new, attr)
+                                nsig.dispatch(ev)
+                                res["dispatches"] += 1
+                                for _ in range(3):
+                                    await anyio.lowlevel.checkpoint()
+                                if ev.source is not new:
+                                    fails.append(("stale", f"{cls.__name__}: event of a new instance allocated at a collected owner's address carries source {ev.source!r}"))
+                                if got:
+                                    fails.append(("stale", f"{cls.__name__}: the subscriber of a collected instance received the event of a new instance at the same address"))
+                        else:
+                            try:
+                                clone = _copy.copy(old)
+                            except Exception:  # noqa: BLE001 - not copyable: nothing to check
+                                clone = None
+                            if clone is not None and clone is not old:
+                                csig = getattr(clone, attr)
+                                if csig is sig:
+                                    fails.append(("shared", f"{cls.__name__}: a copy of an instance shares the original's bound signal"))
+                                ev = evcls()
+                                try:
+                                    csig.dispatch(ev)
+                                    res["dispatches"] += 1
+                                except Exception as e:  # noqa: BLE001
+                                    fails.append(("dispatch", f"dispatch on the copy raised {e!r}"))
+                                for _ in range(3):
+                                    await anyio.lowlevel.checkpoint()
+                                if getattr(ev, "source", None) is not clone:
+                                    fails.append(("stamp", f"{cls.__name__}: event dispatched on the copy carries source {getattr(ev, 'source', None)!r}"))
+                                if got:
+                                    fails.append(("delivery", f"{cls.__name__}: the original's subscriber received an event dispatched on the copy"))
+                        tg.cancel_scope.cancel()
+                res["cases"] += 1
+                res["nontrivial"] += 1
+                if fails:
+                    res["violations"].append({"keys": sorted({f[0] for f in fails}), "fails": [list(f) for f in fails],
+                                              "program": {"shape": unit["shape"], "scenario": scenario}, "choices": [], "trace": [], "outcome": "done"})
+
     def replay(self, rec: dict) -> int:
         p = rec["program"]
+        if p.get("reuse"):
+            s = self.work({"reuse": True}, "quick")
+            for v in s["violations"]:
+                for f in v["fails"]:
+                    print("FAIL", f[0], "-", f[1])
+            print(f"VIOLATION property=C11 replay={rec.get('_path', '')}" if s["violations"] else "no violation on this tree")
+            return 1 if s["violations"] else 0
         if "order" not in p:
             print("liveness case:", p)
             s = self.work({"shape": p["shape"], "n": 1}, "quick")
